@@ -1,6 +1,8 @@
 import RaftVerif.Proofs.ServerLocal
 import RaftVerif.Model.MP.Vote
 import RaftVerif.Proofs.VoteTrace
+import RaftVerif.Proofs.RefineVote
+import RaftVerif.Model.CampaignFault
 /-! # C06 — vote and term integrity across crashes and store failures.
 Registered: `MP.vote_once_per_term` (write-plan model of requestVote's three stable writes: every
 request sequence, every failure plan, every crash point), `SV.exec_prefix` (crash = prefix of the
